@@ -173,7 +173,13 @@ def run_family(fam, rng, rec, log, counters):
         except Exception as e:  # noqa
             rec.violation(f"simulate:raises:{type(e).__name__}", ctx, f"{type(e).__name__}: {str(e)[:200]}")
             return False
+        if "unlinked datasets" in name and di == 1 and not full:
+            # the second dataset arrives the way many files do: global dimension first, with a weight variable.  Weighting
+            # noise-free data keeps the residual zero, and the two fits below reuse these very dataset objects
+            ds = ds.transpose("spectral", "time")
+            ds["weight"] = xr.DataArray(np.round(rng.uniform(0.5, 2.0, ds.data.shape), 3), coords=ds.data.coords)
         data[d] = ds
+    snap_data = {d: np.array(v.data.values, copy=True) for d, v in data.items()}
     # noise reproducibility on the first dataset
     d0 = next(iter(spec["dataset"]))
     kw = {} if full else {"clp": gen_clp[d0]}
@@ -241,6 +247,10 @@ def run_family(fam, rng, rec, log, counters):
         rec.skip(f"perturbed optimisation raised {type(e).__name__}")
         return True
     rec.count("recovery_runs")
+    for d, v in data.items():
+        if not np.array_equal(v.data.values, snap_data[d]):
+            rec.violation(f"simulated-data-modified-by-fitting:{name}", ctx, f"dataset {d} passed to optimize() was changed in place")
+            return False
     got = {k: r.optimized_parameters.get(k).value for k in free}
     want = {k: p.get(k).value for k in free}
     rates = [k for k in free if k in ("k1", "k2", "k3")]
